@@ -60,6 +60,10 @@ def reinit_script(rng, i, variant):
     ops.append({"op": "propose", "who": o, "kind": "update", "id": "pz"})
     ops.append({"op": "commit", "who": o, "id": "cz2"})
     meta["frozen"].append(len(ops) - 1)
+    # ... also through the detached-commit API (committer and a receiver of the re-init)
+    for who, cid in ((c, "cz3"), (rng.choice(others), "cz4")):
+        ops.append({"op": "commit", "who": who, "id": cid, "detached": True})
+        meta["frozen"].append(len(ops) - 1)
     # successor
     outsider = [n for n in g.pool if n not in members and n not in g.removed][0]
     included = list(others)
